@@ -81,8 +81,13 @@ Definition gen (i : N) (p : path) (base : ra) (fwd : bool) : out :=
         (match p with Scrape | ScrapeIdle => Some fwd | _ => None end)
         1%N.
 
-(* Events: the environment flips the per-interface sysctl, or some path generates an RA. *)
-Inductive event := SetFwd (i : N) (b : bool) | Gen (i : N) (p : path).
+(* Events: the environment flips the per-interface sysctl, or some path generates an RA.  The answer of the State
+   read made by a generation is an input: [Gen] -- the read succeeds and returns the flag in force; [GenFail] -- the
+   read fails (EACCES / EPERM, bare or wrapped in *os.SyscallError, or any other error: the code does not look at
+   the error).  On a failing read buildRA returns "failed to get IPv6 forwarding state" before RouterAdvertisement
+   is called (send writes nothing; handle reports nothing; shutdown only logs), constScrape returns a ScrapeError
+   for the forwarding gauge before collectMetrics, the API handler answers 500 before rendering: no RA on any path. *)
+Inductive event := SetFwd (i : N) (b : bool) | Gen (i : N) (p : path) | GenFail (i : N) (p : path).
 
 Definition upd (f : N -> bool) (i : N) (b : bool) : N -> bool :=
   fun j => if N.eqb j i then b else f j.
@@ -93,6 +98,7 @@ Fixpoint run (cfg : N -> ra) (f : N -> bool) (evs : list event) : list (option o
   | [] => []
   | SetFwd i b :: tl => None :: run cfg (upd f i b) tl
   | Gen i p :: tl => Some (gen i p (cfg i) (f i)) :: run cfg f tl
+  | GenFail i p :: tl => None :: run cfg f tl          (* err != nil: nothing is generated, whatever f i is *)
   end.
 
 (* association-list front ends used by the correspondence *)
